@@ -1,5 +1,5 @@
 """Per-property plans: which program families are generated, which notes count."""
-import json, os
+import json, os, zlib
 import vlib
 from vlib import assign_ids, Infra
 
@@ -47,13 +47,20 @@ def api_cfgs(run, depth):
 
 
 def gather(run, fams):
-    """fams: list of (family, parts) or ("api", depth). Returns programs."""
-    progs = []
+    """fams: list of (family, parts) or ("api", depth). All generator processes of all families share one pool."""
+    from concurrent.futures import ThreadPoolExecutor
+    jobs = []
     for fam, arg in fams:
         if fam == "api":
-            progs += run.model_programs("MC_API", api_cfgs(run, arg), "api")
+            jobs.append(lambda arg=arg: run.model_programs("MC_API", api_cfgs(run, arg), "api"))
         else:
-            progs += run.generate(fam, arg)
+            jobs.append(lambda fam=fam, arg=arg: run.generate(fam, arg))
+    if len(jobs) == 1:
+        return jobs[0]()
+    progs = []
+    with ThreadPoolExecutor(max_workers=len(jobs)) as ex:
+        for res in ex.map(lambda j: j(), jobs):
+            progs += res
     return progs
 
 
@@ -376,7 +383,9 @@ def c19(run):
     return check(run, "C19", {"C19"}, [("render", ONE_PART), ("mutants", TYPE_PARTS), ("own", ONE_PART), ("wf", ONE_PART),
                                        ("frames", TYPE_PARTS)],
                  "String and Dump after every decode of the mutant corpus, on packets left by failed UnmarshalBinary, on zero "
-                 "values of all 16 types, and for all 256 values of each rendered byte; seeded random damage to valid frames", ["D9"],
+                 "values of all 16 types, and for all 256 values of each rendered byte; seeded random damage to valid frames "
+                 "(quick tier: a seed-dependent third of the mutant programs)", ["D9"],
+                 keep=(lambda pr: pr.get("fam") != "mutants" or run.tier == "thorough" or (zlib.crc32(json.dumps(pr["steps"][0]).encode()) + run.seed) % 3 == 0),
                  randoms=10000 if run.tier == "quick" else 200000)
 
 
